@@ -113,7 +113,7 @@ def handle (args : List String) : String :=
     -- the whole program on a PDB text: `<name>@<atoms>#<groups>#<records>` per conformation, `&`-separated
     let lines := if file == "-" then [] else (file.splitOn ",").map (fun h => unhex h.toList)
     let po : Pdb.Opts := { ignore := if ign == "default" then Gen.Cfg.f_ignore_residues else Pdb.csvHex ign,
-                           keepProtons := keep == "1", chains := Pdb.csvHex chains }
+                           keepProtons := keep.startsWith "1", chains := Pdb.csvHex chains }
     let removePen := if rp == "-" then Gen.Scoring.removePenalised else rp == "1"
     match shipped removePen with
     | none => "bad-params"
@@ -123,14 +123,14 @@ def handle (args : List String) : String :=
       | .ok confs =>
         let showD (ds : List (Dets.Det Float)) : String :=
           if ds.isEmpty then "-" else ",".intercalate (ds.map fun d => s!"{tohexS d.label}:{fbits d.value}")
-        let avr := match Program.averageRun shippedCP confs with
+        let avr := match Program.averageRun shippedCP (keep.endsWith "d") confs with
           | none => "valueerror"
           | some gs => if gs.isEmpty then "-" else ";".intercalate (gs.map fun g =>
               "|".intercalate [tohexS g.label, tohexS g.type, fbits g.acc.pka, fbits g.nv, fbits g.acc.evol, fbits g.acc.eloc, fbits g.buried,
                 showD g.acc.sc, showD g.acc.bb, showD g.acc.cb])
         -- grid and window of the options: six bit patterns
         let gwv := (gw.splitOn ",").filterMap ofBits?
-        let sections := match Program.averageRun shippedCP confs, Pdb.parse po lines, gwv with
+        let sections := match Program.averageRun shippedCP (keep.endsWith "d") confs, Pdb.parse po lines, gwv with
           | some gs, .ok recs, [g0, g1, g2, w0, w1, w2] =>
             tohexS (Output.determinantRows removePen Gen.Cfg.f_write_out_order (Output.chainsOf confs) gs) ++ "#" ++
             tohexS (Output.summaryRows removePen Gen.Cfg.f_write_out_order gs) ++ "#" ++
